@@ -21,6 +21,7 @@ def run(ctx):
   verdicts = ringsys.judge(ctx, traces, 'C06 scenarios')
   ringcheck.report(ctx, traces, verdicts, ringcheck.C06_FLAGS)
   ringcheck.negative_controls(ctx, traces, verdicts)
+  ringcheck.manager_routes(ctx)
   t = next(x for x in traces if x['kind'] == 'ring' and len(x['refpos'][0]) >= 5)
   ctx.sample(dict(kind='real-hash scenario', nodes=t['nodes'], hash_type=t['hash_type'], ops=t['ops'],
                   first_positions=[r[:4] for r in t['refpos']], arcs=len(t['steps'][-1]['routes']) if t['steps'] else 0))
